@@ -753,6 +753,9 @@ def _parse_auto_apply_args(argspec, commandline_args, namespace, arg_mode="auto"
             if not is_identifier(argname):
                 raise ParseError("Invalid option name %s" % (argname,))
             matched_argnames = prefix2argname.get(argname, [])
+            if argname in matched_argnames:
+                # An exact parameter name is never ambiguous.
+                matched_argnames = [argname]
             if len(matched_argnames) == 1:
                 argname, = matched_argnames
             elif len(matched_argnames) == 0:
@@ -772,7 +775,7 @@ def _parse_auto_apply_args(argspec, commandline_args, namespace, arg_mode="auto"
                        ", ".join("--%s"%s for s in matched_argnames)))
             else:
                 raise AssertionError
-            if not value:
+            if not equalsign:
                 try:
                     value = args.pop(0)
                 except IndexError:
